@@ -1,13 +1,14 @@
 (* c18 model driver: one case per line
-     <variant> <name> <validity> <value> [<context_flags>]   (the flags are not used: no register method reads them;
-     translate/context_tables.py aborts if one starts to)
+     <variant> <name> <validity> <value> [<context_flags>|- [<fill>]]
+   context_flags: written into the model's context_flags field; fill: every 32-bit word of the base context
+   (so every integer field holds the word repeated to its width); absent = the pattern base (sentinel)
    name: `-` = empty string; validity: `A` or `S:n1,n2,...` (`S:` = empty set)
    output: the model's part of the harness answer (see harness/src/bin/c18.rs) *)
 let name_of_string (s : string) : z list =
   if s = "-" then [] else List.init (String.length s) (fun i -> z_of_int (Char.code s.[i]))
 let string_of_name (n : z list) : string =
   String.concat "" (List.map (fun b -> String.make 1 (Char.chr (int_of_z b))) n)
-let keys = ["mz"; "st"; "ga"; "gA"; "gr"; "iv"; "ch"; "sp"; "ip"; "spn"; "ipn"; "rn"; "vn"; "cr"; "cv"; "sz"; "fm"; "mg"]
+let keys = ["mz"; "st"; "ga"; "gA"; "gr"; "iv"; "ch"; "sp"; "ip"; "spn"; "ipn"; "rn"; "vn"; "cr"; "cv"; "sz"; "fm"; "mg"; "sa"; "ia"]
 let show_cell (c : cell) : string =
   match c with
   | CName n -> string_of_name n
@@ -16,28 +17,29 @@ let show_cell (c : cell) : string =
   | CNames l -> String.concat "," (List.map string_of_name l)
   | CSorted l -> String.concat "," (List.sort compare (List.map string_of_name l))
   | CPairs l -> String.concat "," (List.map (fun (n, x) -> string_of_name n ^ ":" ^ string_of_z x) l)
-  | CFmt (x, d) ->
-    let h = ZA.format "%x" (z_to_zt x) in
-    let d = int_of_z d in
-    "0x" ^ (if String.length h < d then String.make (d - String.length h) '0' else "") ^ h
 let () =
   try
     while true do
       let line = input_line stdin in
       if String.length line > 0 && line.[0] <> '#' then begin
-        match (match split_ws line with [a; b; c; d; _] -> [a; b; c; d] | l -> l) with
-        | [variant; nm; vspec; value] ->
+        let opt t = if t = "-" then None else Some (z_of_string t) in
+        match (match split_ws line with
+               | [a; b; c; d] -> Some (a, b, c, d, None, None)
+               | [a; b; c; d; f] -> Some (a, b, c, d, opt f, None)
+               | [a; b; c; d; f; w] -> Some (a, b, c, d, opt f, opt w)
+               | _ -> None) with
+        | Some (variant, nm, vspec, value, flags, fill) ->
           let v =
             if vspec = "A" then VAll
             else begin
               let l = String.sub vspec 2 (String.length vspec - 2) in
               VSome (if l = "" then [] else List.map name_of_string (String.split_on_char ',' l))
             end in
-          (match run_case (name_of_string variant) (name_of_string nm) v (z_of_string value) with
+          (match run_case (name_of_string variant) (name_of_string nm) v (z_of_string value) flags fill with
            | None -> print_endline "E;;unknown context variant"
            | Some cells ->
              print_endline (String.concat ";" (List.map2 (fun k c -> k ^ "=" ^ show_cell c) keys cells)))
-        | _ -> print_endline "E;;bad case line"
+        | None -> print_endline "E;;bad case line"
       end
     done
   with End_of_file -> ()
